@@ -336,7 +336,7 @@ Section Correct.
     intros Hlen. unfold joining_run.
     destruct (pre_scan_spec ctx0) as (s0 & -> & Hs0 & Hin).
     destruct (main_spec ctx1 text [] None init s0 init 0%nat Hs0 Hlen eq_refl eq_refl) as (a' & p' & s' & H1 & H2).
-    cbn [prev_of] in H1. rewrite H1, H2. cbn. f_equal. now apply fa_spec.
+    cbn [prev_of] in H1. rewrite H1, H2. cbn [app patch_mid]. apply f_equal. apply fa_spec. exact Hin.
   Qed.
 End Correct.
 
@@ -507,4 +507,106 @@ Proof.
   destruct (action_eqb a b) eqn:Hab.
   - assert (a = b) by (destruct a, b; cbn in Hab; congruence). subst. apply N.land_diag.
   - apply Hd. intros ->. destruct b; discriminate.
+Qed.
+
+(* ------------------------------------------------------------------ automaton-level corollaries *)
+
+Lemma map_insert {X Y} (f : X -> Y) k v (s : list X) :
+  map f (firstn k s ++ v :: skipn k s) = firstn k (map f s) ++ f v :: skipn k (map f s).
+Proof. now rewrite map_app, firstn_map, skipn_map. Qed.
+
+Section Corollaries.
+  Variable E : enc.
+  Variable tbl : table.
+  Variable cl : N.
+  Hypothesis OK : TableOK E tbl.
+  Let run pre text post := arabic_joining E tbl cl (map (jcode E) pre) (map (jcode E) text) (map (jcode E) post).
+
+  Lemma run_T_in_text pre a b post :
+    run pre (a ++ T :: b) post
+    = option_map (fun s => firstn (length a) s ++ aNONE E :: skipn (length a) s) (run pre (a ++ b) post).
+  Proof.
+    unfold run. rewrite !(automaton_correct E tbl cl OK). cbn [option_map]. apply f_equal.
+    rewrite spec_T_in_text. apply (map_insert (acode E)).
+  Qed.
+
+  Lemma run_T_in_pre a b text post : (length (a ++ T :: b) <= N.to_nat cl)%nat ->
+    run (a ++ T :: b) text post = run (a ++ b) text post.
+  Proof.
+    intros H. unfold run. rewrite !(automaton_correct E tbl cl OK).
+    rewrite !lastn_short; [now rewrite spec_T_in_pre | | exact H].
+    rewrite app_length in *. cbn [length] in H. lia.
+  Qed.
+
+  Lemma run_T_in_post pre text a b : (length (a ++ T :: b) <= N.to_nat cl)%nat ->
+    run pre text (a ++ T :: b) = run pre text (a ++ b).
+  Proof.
+    intros H. unfold run. rewrite !(automaton_correct E tbl cl OK).
+    rewrite !firstn_all2; [now rewrite spec_T_in_post | | exact H].
+    rewrite app_length in *. cbn [length] in H. lia.
+  Qed.
+
+  Lemma run_context_as_text pre text post :
+    (length pre <= N.to_nat cl)%nat -> (length post <= N.to_nat cl)%nat ->
+    exists full, run [] (pre ++ text ++ post) [] = Some full
+                 /\ run pre text post = Some (firstn (length text) (skipn (length pre) full)).
+  Proof.
+    intros H1 H2. unfold run.
+    rewrite (automaton_correct_short E tbl cl OK pre text post H1 H2).
+    rewrite (automaton_correct_short E tbl cl OK [] _ []) by (cbn; lia).
+    eexists. split; [reflexivity|]. apply f_equal.
+    now rewrite spec_context_as_text, skipn_map, firstn_map.
+  Qed.
+
+  (* whatever the lengths: only the window the buffer keeps matters *)
+  Lemma run_window pre text post :
+    run pre text post = run (lastn (N.to_nat cl) pre) text (firstn (N.to_nat cl) post).
+  Proof.
+    unfold run. rewrite !(automaton_correct E tbl cl OK).
+    assert (Hk : forall (l : list jt) k, lastn k (lastn k l) = lastn k l).
+    { intros l k. unfold lastn. rewrite rev_involutive, firstn_firstn, Nat.min_id. reflexivity. }
+    now rewrite Hk, firstn_firstn, Nat.min_id.
+  Qed.
+End Corollaries.
+
+(* ------------------------------------------------------------------ the current source's table *)
+From RB Require Import Gen.JoiningTable Model.JoiningGen.
+
+(* the ONLY place where the entries of STATE_TABLE are examined *)
+Lemma gen_table_ok : table_ok gen_enc state_table = true.
+Proof. vm_compute. reflexivity. Qed.
+
+Lemma gen_OK : TableOK gen_enc state_table.
+Proof. exact gen_table_ok. Qed.
+
+(* ARABIC_FEATURES[action] is the feature named after the action; NONE is the extra, zero slot *)
+Definition features_ok : bool :=
+  forallb (fun a => match feature_tag a, nth_error arabic_features (N.to_nat (acode gen_enc a)) with
+                    | Some t, Some t' => t =? t'
+                    | None, None => true
+                    | _, _ => false
+                    end) all_actions.
+
+Lemma gen_features_ok : features_ok = true.
+Proof. vm_compute. reflexivity. Qed.
+
+Lemma gen_feature_tags a :
+  nth_error arabic_features (N.to_nat (acode gen_enc a)) = feature_tag a.
+Proof.
+  pose proof gen_features_ok as H. unfold features_ok in H. rewrite forallb_forall in H.
+  assert (Ha : In a all_actions) by (destruct a; cbn; tauto).
+  specialize (H a Ha).
+  destruct (feature_tag a), (nth_error arabic_features (N.to_nat (acode gen_enc a))); try discriminate; auto.
+  apply N.eqb_eq in H. now subst.
+Qed.
+
+Lemma acode_inj a b : acode gen_enc a = acode gen_enc b -> a = b.
+Proof.
+  pose proof gen_table_ok as H. unfold table_ok in H.
+  apply andb_prop in H as [H _]. apply andb_prop in H as [H _]. apply andb_prop in H as [H _].
+  unfold codes_ok in H. apply andb_prop in H as [_ H].
+  revert H. generalize (acode gen_enc). intros f H.
+  destruct a, b; try reflexivity; intros Heq; exfalso; cbn in H; rewrite ?Heq, ?N.eqb_refl in H;
+    rewrite <- ?Heq, ?N.eqb_refl in H; cbn in H; rewrite ?orb_true_r in H; cbn in H;
+    rewrite ?andb_false_r in H; discriminate.
 Qed.
